@@ -27,7 +27,7 @@ RULE = ('histories over a pool of 13 trees (elisions, nested scopes, comments, t
 ASSUMPTIONS = ['behaviour of a generator after it raised, and identity (as opposed to equality) of fragments, are not demanded']
 BUDGET_S = {'quick': 60, 'thorough': 600}
 REQUIRED_HITS = ['full', 'abandon', 'raise', 'shortcut', 'str', 'fingerprints_compared', 'Indentator()', 'Obfuscator()']
-FLOOR = {'quick': 200, 'thorough': 4000}
+FLOOR = {'quick': 200, 'thorough': 2000}
 
 TEXTS = [
     'var a = 1, b;',
